@@ -25,7 +25,7 @@ C10 = [
      "tmpl_CalendarHashChain.e0,tmpl_CalendarHashChain.base", "tag of the calendar chain's input hash changed 05 -> 06"),
     ("critical_inverted", T + "tlv_template.c",
      "if (KSI_TLV_isNonCritical(tlv)) {", "if (!KSI_TLV_isNonCritical(tlv)) {",
-     "tmpl_HashChainLink.f1,tmpl_Signature.f1", "critical-flag test for unknown elements inverted"),
+     "tmpl_HashChainLink.i2,tmpl_Signature.i3", "critical-flag test for unknown elements inverted"),
     ("last_flag_removed", T + "tlv_template.c",
      'KSI_TLV_IMPRINT(0x1F, KSI_TLV_TMPL_FLG_LAST, KSI_AggregationPdu_getHmac, KSI_AggregationPdu_setHmac, "hmac")\nKSI_END_TLV_TEMPLATE\n\nKSI_DEFINE_TLV_TEMPLATE(KSI_ExtendReq)',
      'KSI_TLV_IMPRINT(0x1F, KSI_TLV_TMPL_FLG_NONE, KSI_AggregationPdu_getHmac, KSI_AggregationPdu_setHmac, "hmac")\nKSI_END_TLV_TEMPLATE\n\nKSI_DEFINE_TLV_TEMPLATE(KSI_ExtendReq)',
@@ -40,7 +40,7 @@ C10 = [
      "if (valuep != NULL && !tmpl[i].multiple) {", "if (valuep != NULL && tmpl[i].multiple) {",
      "tmpl_AggregationHashChain.i5,tmpl_Signature.f2", "repeat test applied to repeatable instead of single-valued rows"),
     ("most_one_dropped", T + "tlv_template.c",
-     "				oneOf[0] = true;\n", "				oneOf[0] = false;\n",
+     "				}\n				oneOf[0] = true;\n			}\n", "				}\n				oneOf[0] = false;\n			}\n",
      "tmpl_HashChainLink.f2,tmpl_Signature.i3", "at-most-one group 0 never latches"),
     ("least_one_removed", T + "tlv_template.c",
      'KSI_TLV_OBJECT(0x03, KSI_TLV_TMPL_FLG_MANTATORY_MOST_ONE_G0, KSI_HashChainLink_getLegacyId',
@@ -63,7 +63,7 @@ C10 = [
      'KSI_TLV_OBJECT_LIST(0x08, KSI_TLV_TMPL_FLG_LEAST_ONE_G0 | KSI_TLV_TMPL_FLG_NO_SERIALIZE, KSI_AggregationHashChain_getChain, KSI_AggregationHashChain_setChain,',
      'KSI_TLV_OBJECT_LIST(0x08, KSI_TLV_TMPL_FLG_LEAST_ONE_G0 | KSI_TLV_TMPL_FLG_NO_SERIALIZE, KSI_AggregationHashChain_getChainIndex, KSI_AggregationHashChain_setChainIndex,',
      "tmpl_AggregationHashChain.base,tmpl_AggregationHashChain.i5", "right links of an aggregation chain stored in a different field than left links"),
-    ("int_len9", T + "types_base.c", "	if (len > 8) {", "	if (len > 9) {", "leaf_int.l9,leaf_int.l8", "integer length limit 8 -> 9"),
+    ("int_len9", T + "types_base.c", "	if (len > 8) {", "	if (len > 9) {", "leaf_int.l9,leaf_int.l8", "integer length limit 8 -> 9 (EQUIVALENT for acceptance: a 9-octet payload still fails the minimal-encoding test because the decoded 64-bit value needs <= 8 octets; same status code - expected MISSED)"),
     ("int_nonminimal", T + "types_base.c", "if (len > 0 && len != KSI_UINT64_MINSIZE(val)) {", "if (len > 8 && len != KSI_UINT64_MINSIZE(val)) {", "leaf_int.l2,leaf_int.l1", "minimal-encoding test disabled"),
     ("utf8_f7", T + "types_base.c", "str[i] <= 0xf4 /* Cause of RFC 3629 */", "str[i] <= 0xf7 /* Cause of RFC 3629 */", "leaf_utf8.l5,leaf_utf8new.l5", "4-octet lead range F0..F4 widened to F0..F7"),
     ("utf8_embedded_nul", T + "types_base.c", "if (i + 1 != len && str[i] == 0) {", "if (i + 1 != len && str[i] == 0 && 0) {", "leaf_utf8.l3,leaf_utf8new.l3", "embedded-NUL test disabled"),
@@ -71,7 +71,7 @@ C10 = [
     ("utf8_cont_range", T + "types_base.c", "&& str[i] >= 0x80 /*10000000*/ && str[i] <= 0xbf /*10111111*/) {", "&& str[i] >= 0x80 /*10000000*/ && str[i] <= 0xcf /*10111111*/) {", "leaf_utf8.l3,leaf_utf8.l4", "continuation range 80..BF widened to 80..CF"),
     ("nz_dropped", T + "types_base.c", "	if (tmp->len == 0 || (tmp->len == 1 && tmp->value[0] == 0)) {", "	if (tmp->len == 0) {", "leaf_utf8nz.l1", "non-empty test of Utf8StringNZ_fromTlv removed"),
     ("digest_len_lt", T + "hash.c", "if (KSI_getHashLength(algo_id) != digest_length) {", "if (KSI_getHashLength(algo_id) > digest_length) {", "leaf_digest.l64,leaf_imprint.l34", "digest length test '!=' -> '>' (longer digests accepted)"),
-    ("alg_id_range", T + "hash.c", "return algo_id >= 0 && algo_id < KSI_NUMBER_OF_KNOWN_HASHALGS && KSI_hashAlgorithmInfo[algo_id].names != NULL;", "return algo_id >= 0 && algo_id < KSI_NUMBER_OF_KNOWN_HASHALGS;", "leaf_imprint.l1,leaf_digest.l1", "reserved algorithm ids 03 / 06 treated as known"),
+    ("alg_id_range", T + "hash.c", "return algo_id >= 0 && algo_id < KSI_NUMBER_OF_KNOWN_HASHALGS && KSI_hashAlgorithmInfo[algo_id].names != NULL;", "return algo_id >= 0 && algo_id < KSI_NUMBER_OF_KNOWN_HASHALGS;", "leaf_imprint.l1,leaf_digest.l1", "reserved algorithm ids 03 / 06 treated as known (EQUIVALENT for acceptance: their table length is 0, so every digest is refused by the length test or the empty-digest test; only the status code differs - expected MISSED)"),
     ("sha3_256_len", T + "hash.c", "HASH_ALGO(KSI_HASHALG_SHA3_256,		256, 1088, 0, 0),", "HASH_ALGO(KSI_HASHALG_SHA3_256,		264, 1088, 0, 0),", "leaf_imprint.l33,leaf_imprint.l34", "digest length of SHA3-256 32 -> 33"),
     ("empty_imprint_guard", T + "hash.c", "	if (imprint == NULL || imprint_length == 0) {", "	if (imprint == NULL) {", "leaf_imprint.l0", "the fixed defect F6 re-introduced"),
     ("legacy_len26", T + "hashchain.c", "	if (raw[2] > 25) {", "	if (raw[2] > 26) {", "leaf_legacy.l29", "legacy-id name length limit 25 -> 26"),
@@ -146,9 +146,13 @@ def main():
         sh(["git", "-C", "/repo", "worktree", "remove", "--force", scratch])
         sh(["git", "-C", "/repo", "worktree", "prune"])
     mdp = os.path.join(VERIF, "harness", prop, "MUTATIONS.md")
-    if only and os.path.exists(mdp):
-        print("(partial run: MUTATIONS.md not rewritten)")
-        return
+    jp = os.path.join(VERIF, "harness", prop, "mutations.json")
+    import json
+    prev = json.load(open(jp)) if os.path.exists(jp) else {}
+    for r in rows:
+        prev[r[0]] = list(r)
+    json.dump(prev, open(jp, "w"), indent=1)
+    rows = [tuple(prev[m[0]]) for m in muts if m[0] in prev]   # a partial run updates its rows, the table keeps all
     with open(mdp, "w") as fo:
         fo.write("# %s - mutation sanity check of the harnesses\n\n" % prop)
         fo.write("Generated by `python3 harness/common/c10_c12_mutate.py %s` against /repo @ %s (one textual change of the real code per row, applied in a scratch worktree, "
